@@ -467,9 +467,9 @@ func (r *report) validateTranslator(p *sym.Program, incomplete *[]string) (runs,
 		for _, l := range strings.Split(ro.Raw, "\n") {
 			l = strings.TrimSpace(l)
 			if strings.HasPrefix(l, "VRT-OBS ") {
-				f := strings.SplitN(strings.TrimPrefix(l, "VRT-OBS "), " ", 2)
-				if len(f) == 2 {
-					nobs = append(nobs, [2]string{f[0], f[1]})
+				body := strings.TrimPrefix(l, "VRT-OBS ")
+				if k := strings.LastIndex(body, " "); k > 0 { // labels may contain spaces (column names)
+					nobs = append(nobs, [2]string{body[:k], body[k+1:]})
 				}
 			}
 		}
